@@ -31,7 +31,7 @@ ALL_DEC = ('d',)
 ANY = ('d',) + tuple(INTS)
 KERNEL_OPS = {
     'powers_of_ten::': [('from_str', ('s',), None), ('add', ALL_DEC, ANY), ('sub', ANY, ALL_DEC), ('round', ALL_DEC, None), ('eq', ALL_DEC, ANY),
-                        ('rem', ALL_DEC, ALL_DEC)],
+                        ('rem', ALL_DEC, ALL_DEC), ('div', ALL_DEC, ALL_DEC), ('checked_div', ('u64', 'i128'), ALL_DEC)],
     'adjust_coeffs': [('eq', ALL_DEC, ALL_DEC), ('partial_cmp', ALL_DEC, ALL_DEC)],
     'i128_div_mod_floor': [('round', ALL_DEC, None), ('div_rounded', ALL_DEC, ALL_DEC), ('to_string', ALL_DEC, None)],
     'rounding::': [('round', ALL_DEC, None), ('div_rounded', ANY, ALL_DEC), ('mul', ALL_DEC, ALL_DEC), ('div', ALL_DEC, ANY),
@@ -247,6 +247,18 @@ def aligned_pairs(lk, rk, rng):
                             a, b = enc(lk, sf * f, s + k), enc(rk, sg * c, s)
                             if a and b:
                                 out.append((a, b))
+    # 64-bit-sized coefficients against small divisors / addends with a few more fractional digits (a fast path that
+    # treats "fits into 64 bits" as "cannot overflow when scaled")
+    for k in (1, 2, 3):
+        for c in (2 ** 64 - 1, 2 ** 64 - 17, 17014118346046923174, 18 * 10 ** 18, 2 ** 63, 2 ** 63 - 1, 92233720368547758):
+            for f in (25, 3, 7, 15, 125, 1):
+                for sg in (1, -1):
+                    a, b = enc(lk, sg * c, 0), enc(rk, f, k)
+                    if a and b:
+                        out.append((a, b))
+                    a, b = enc(lk, f, k), enc(rk, sg * c, 0)
+                    if a and b:
+                        out.append((a, b))
     rng.shuffle(out)
     return out
 
